@@ -166,7 +166,7 @@ pub async fn scenario(seed: u64, opts: &DataOpts) {
                 let id = next_op;
                 next_op += 1;
                 let kind = rng.below(if opts.ports { 8 } else { 7 });
-                let len = match rng.below(5) {
+                let len = match if opts.max_len_factor == 0 { if rng.chance(1, 6) { 1 } else { 0 } } else { rng.below(5) } {
                     0 => 0,
                     1 => rng.range(1, 3),
                     2 => peer.chunk as u64 + rng.below(3),
